@@ -66,7 +66,7 @@ class Space:
     def shard(self, w, n, rot):
         """Cases of worker w out of n.  Default: full enumeration, keep every n-th case."""
         for i, c in enumerate(self.cases()):
-            if (i + rot) % n == w:
+            if ((i >> 6) + rot) % n == w:  # chunks of 64 consecutive cases keep per-input caches warm
                 yield c
 
     def evaluate(self, case) -> Outcome:
@@ -345,6 +345,14 @@ def finish(prop, level, reports, tier, t0, rule, assumptions=(), extra=None, exh
             else:
                 unknown.append((rep.space, sig, case, detail))
     rc = 0
+    dump = os.environ.get("VERIF_DUMP")
+    if dump:
+        with open(dump, "w", encoding="utf8") as f:
+            for sp, sig, case, detail in unknown:
+                f.write(json.dumps({"space": sp.name, "sig": sig, "case": json.loads(core.canon(case)), "describe": sp.describe(case),
+                                    "detail": detail}, ensure_ascii=False, default=str) + "\n")
+        unknown_all, unknown = unknown, unknown[:0]
+        print(f"VERIF_DUMP: wrote {len(unknown_all)} unlisted minimal violators to {dump} (not confirmed, not reported)")
     for key, desc in reproduced:
         print(f"KNOWN-FINDING: property={prop} space={key[0]} sig={key[1]} case={key[2]} :: {desc}")
     gone = [k for k in known if k not in {r[0] for r in reproduced}]
